@@ -38,6 +38,7 @@ type Case struct {
 	Smap     [][]int  `json:"smap"`  // [] or per node [present,w,h] (optionally ,x,y)
 	Virt     int      `json:"virt"`
 	Nsd      int      `json:"nsd"` // NodeSpacing = ns / nsd (nsd a power of two <= 64; 0 or 1: ns itself)
+	Sden     int      `json:"sden"` // node sizes (fixed, smap) are divided by sden (> 1: sizes off the binary grid, e.g. 0.1, 12.7); 0 or 1: as given
 	Oo       int      `json:"oo"`  // 1: the option list is passed in reverse order
 	Bkl      int      `json:"bkl"` // 1..4: WithBrandesKoepfLayout(bkl-1) although the positioner is not Brandes-Koepf
 	Thor     int      `json:"thor"` // <0: library default
@@ -61,6 +62,15 @@ func (c *Case) name(i int) string {
 }
 
 func scale(v int, k int) float64 { return math.Ldexp(float64(v), k) }
+
+// size is a configured node dimension: the integer of the case, scaled, divided by the case's size denominator
+func (c *Case) size(v int) float64 {
+	x := scale(v, c.Sc)
+	if c.Sden > 1 {
+		x /= float64(c.Sden)
+	}
+	return x
+}
 
 type monEvent struct {
 	phase int
@@ -199,14 +209,14 @@ func buildOptions(c *Case, rec *recorder) (graph.EdgeSlice, map[string]graph.Siz
 		opts = append(opts, autog.WithLayerSpacing(scale(c.Ls, c.Sc)))
 	}
 	if len(c.Fixed) == 2 {
-		opts = append(opts, autog.WithNodeFixedSize(scale(c.Fixed[0], c.Sc), scale(c.Fixed[1], c.Sc)))
+		opts = append(opts, autog.WithNodeFixedSize(c.size(c.Fixed[0]), c.size(c.Fixed[1])))
 	}
 	var sizes map[string]graph.Size
 	if len(c.Smap) > 0 {
 		sizes = map[string]graph.Size{}
 		for i, s := range c.Smap {
 			if len(s) >= 3 && s[0] == 1 {
-				sz := graph.Size{W: scale(s[1], c.Sc), H: scale(s[2], c.Sc)}
+				sz := graph.Size{W: c.size(s[1]), H: c.size(s[2])}
 				if len(s) >= 5 {
 					sz.X, sz.Y = scale(s[3], c.Sc), scale(s[4], c.Sc)
 				}
